@@ -434,7 +434,9 @@ private:
 
 		// The event must be obtained before `first` is forwarded into the arguments tuple below;
 		// inside one argument list the evaluation order is unspecified and `first` may be moved from.
-		const EventType_ event = GetEvent::getEvent(std::forward<T>(first), args...);
+		// `first` is not forwarded to getEvent: it is queued as an argument afterwards, and a policy
+		// taking it by value would move from it.
+		const EventType_ event = GetEvent::getEvent(first, args...);
 
 		doEnqueueItem(QueuedItemType(
 			PrototypeInfo::index,
